@@ -55,11 +55,44 @@ func intsTok(xs []int) string {
 	return strings.Join(o, ",")
 }
 
-// text.case font prop spacing h v cx cy dx dy W H str | sw lh lh1 segw segw1 A B C
+// per line the widths GetCharWidth reports for its characters (CR is neither drawn nor advanced over): "6,6;-;4"
+func cwsTok(img *monogfx.MonoImg, segs []string) string {
+	o := make([]string, len(segs))
+	for i, seg := range segs {
+		ws := []int{}
+		for _, r := range seg {
+			if byte(r) != 13 {
+				ws = append(ws, int(img.GetCharWidth(byte(r))))
+			}
+		}
+		o[i] = intsTok(ws)
+	}
+	return strings.Join(o, ";")
+}
+
+// text.case font prop spacing h v cx cy dx dy W H str | sw lh lh1 segw segw1 A B C cws
 // str = the bytes of the Go string handed to RenderText / StrWidth (arbitrary bytes, valid UTF-8 or not)
+//
+// text.sess W H dx dy fin op... | <final tokens> <one token per op>
+//   a whole call history on ONE image object: NewImage(W,H) on a fresh object, then the calls op... in the order given:
+//     F:n:p SetFont   Z:h:v SetTextSize   P:s SetCharSpacingCompensation   W:b SetTextWrap   C:x:y SetCursor   K:b SetTextColor
+//     N:w:h NewImage  B:w:h:hex CreateFromBytes          (re-creation of the canvas on the same object)
+//     S:hex StrWidth -> n    L LineHeight -> n    G:c GetCharWidth/GetCharStart -> w/s
+//     R:hex RenderText -> canvas    D:x:y:c:col:bg:h:v DrawChar -> canvas                  (calls without result print ".")
+//   then the final case on three objects A, B, C that all went through that history; the canvas is cleared first
+//   (FillRect(0,0,Width,Height,false): the text state is untouched):
+//     R:ord:cx:cy:hex  SetTextWrap(false) [C: SetTextSize(1,1)], the metrics (StrWidth of the string and of every line,
+//                      LineHeight, GetCharWidth of every glyph) and SetCursor + RenderText; ord 0 = metrics first (how a
+//                      caller centres a text), 1 = rendering first            -> sw lh lh1 segw segw1 A B C cws
+//     D:x:y:c:col:bg:h:v  a direct DrawChar with explicit sizes (B at x+dx,y+dy; C with sizes 1,1; the object's own text
+//                      size is whatever the history left)                     -> cw cell A B C
 func (e *textExec) Exec(cmd string, a []string) string {
 	res := ""
 	p := guarded(func() {
+		if cmd == "text.sess" {
+			res = textSess(a)
+			return
+		}
 		if cmd != "text.case" {
 			panic("unknown record " + cmd)
 		}
@@ -74,13 +107,131 @@ func (e *textExec) Exec(cmd string, a []string) string {
 			segw = append(segw, A.StrWidth(seg))
 			segw1 = append(segw1, C.StrWidth(seg))
 		}
-		res = fmt.Sprintf("%d %d %d %s %s %s %s %s", A.StrWidth(str), A.LineHeight(), C.LineHeight(), intsTok(segw), intsTok(segw1),
-			hx(A.GetImgSlice()), hx(B.GetImgSlice()), hx(C.GetImgSlice()))
+		res = fmt.Sprintf("%d %d %d %s %s %s %s %s %s", A.StrWidth(str), A.LineHeight(), C.LineHeight(), intsTok(segw), intsTok(segw1),
+			hx(A.GetImgSlice()), hx(B.GetImgSlice()), hx(C.GetImgSlice()), cwsTok(C, lfSegments(str)))
 	})
 	if p != "" {
 		return p
 	}
 	return res
+}
+
+// ---- sessions on one image object ----
+
+func sessOp(img *monogfx.MonoImg, tok string) string {
+	f := strings.Split(tok, ":")
+	switch f[0] {
+	case "F":
+		img.SetFont(atoi(f[1]), abool(f[2]))
+	case "Z":
+		img.SetTextSize(atoi(f[1]), atoi(f[2]))
+	case "P":
+		img.SetCharSpacingCompensation(byte(atoi(f[1])))
+	case "W":
+		img.SetTextWrap(abool(f[1]))
+	case "C":
+		img.SetCursor(atoi(f[1]), atoi(f[2]))
+	case "K":
+		img.SetTextColor(abool(f[1]))
+	case "N":
+		img.NewImage(atoi(f[1]), atoi(f[2]))
+	case "B":
+		_ = img.CreateFromBytes(atoi(f[1]), atoi(f[2]), append([]byte{}, unhx(f[3])...))
+	case "S":
+		return strconv.Itoa(img.StrWidth(string(unhx(f[1]))))
+	case "L":
+		return strconv.Itoa(int(img.LineHeight()))
+	case "G":
+		return fmt.Sprintf("%d/%d", img.GetCharWidth(byte(atoi(f[1]))), img.GetCharStart(byte(atoi(f[1]))))
+	case "R":
+		img.RenderText(string(unhx(f[1])))
+		return hx(img.GetImgSlice())
+	case "D":
+		img.DrawChar(atoi(f[1]), atoi(f[2]), byte(atoi(f[3])), abool(f[4]), abool(f[5]), atoi(f[6]), atoi(f[7]))
+		return hx(img.GetImgSlice())
+	default:
+		panic("unknown session call " + tok)
+	}
+	return "."
+}
+
+func textSess(a []string) string {
+	W, H, dx, dy, fin, ops := atoi(a[0]), atoi(a[1]), atoi(a[2]), atoi(a[3]), a[4], a[5:]
+	objs := [3]*monogfx.MonoImg{}
+	outs := []string{}
+	for k := range objs {
+		objs[k] = &monogfx.MonoImg{}
+		objs[k].NewImage(W, H)
+		for _, op := range ops {
+			o := sessOp(objs[k], op)
+			if k == 0 {
+				outs = append(outs, o)
+			}
+		}
+		objs[k].FillRect(0, 0, objs[k].Width, objs[k].Height, false)
+	}
+	A, B, C := objs[0], objs[1], objs[2]
+	f := strings.Split(fin, ":")
+	final := ""
+	switch f[0] {
+	case "R":
+		ord, cx, cy, str := atoi(f[1]), atoi(f[2]), atoi(f[3]), string(unhx(f[4]))
+		segs := lfSegments(str)
+		type met struct {
+			sw   int
+			lh   uint32
+			segw []int
+			cws  string
+		}
+		measure := func(img *monogfx.MonoImg) met {
+			m := met{sw: img.StrWidth(str)}
+			if len(segs) == 1 {
+				m.segw = []int{m.sw} // a string without line feed is its only line: one call, as a caller would make it
+			} else {
+				for _, seg := range segs {
+					m.segw = append(m.segw, img.StrWidth(seg))
+				}
+			}
+			m.lh = img.LineHeight()
+			m.cws = cwsTok(img, segs)
+			return m
+		}
+		run := func(img *monogfx.MonoImg, x, y int) met {
+			var m met
+			if ord == 0 {
+				m = measure(img)
+			}
+			img.SetCursor(x, y)
+			img.RenderText(str)
+			if ord != 0 {
+				m = measure(img)
+			}
+			return m
+		}
+		for _, img := range objs {
+			img.SetTextWrap(false)
+		}
+		C.SetTextSize(1, 1)
+		mA := run(A, cx, cy)
+		run(B, cx+dx, cy+dy)
+		mC := run(C, cx, cy)
+		final = fmt.Sprintf("%d %d %d %s %s %s %s %s %s", mA.sw, mA.lh, mC.lh, intsTok(mA.segw), intsTok(mC.segw),
+			hx(A.GetImgSlice()), hx(B.GetImgSlice()), hx(C.GetImgSlice()), mC.cws)
+	case "D":
+		x, y, c, col, bg, h, v := atoi(f[1]), atoi(f[2]), byte(atoi(f[3])), abool(f[4]), abool(f[5]), atoi(f[6]), atoi(f[7])
+		A.DrawChar(x, y, c, col, bg, h, v)
+		B.DrawChar(x+dx, y+dy, c, col, bg, h, v)
+		C.DrawChar(x, y, c, col, bg, 1, 1)
+		cw := A.GetCharWidth(c)
+		C.SetTextSize(1, 1) // after the drawing: the cell height is LineHeight() at size 1
+		final = fmt.Sprintf("%d %d %s %s %s", cw, C.LineHeight(), hx(A.GetImgSlice()), hx(B.GetImgSlice()), hx(C.GetImgSlice()))
+	default:
+		panic("unknown final case " + fin)
+	}
+	if len(outs) == 0 {
+		return final
+	}
+	return final + " " + strings.Join(outs, " ")
 }
 
 // one character of a test string, as the bytes of the Go string
@@ -176,6 +327,216 @@ func emitClippedCase(r *Rng, font int, prop bool, sp, h, v int, bs []byte) {
 	emit("text.case", font, prop, sp, h, v, cx, cy, dx, dy, r.Range(0, 80), r.Range(0, 40), bs)
 }
 
+// ---- sessions: one image object used for several texts, setters in every order ----
+
+type sessGen struct {
+	r          *Rng
+	ops        []string
+	last       int // byte(rune) of the last character a query or rendering handled on the object (-1: none yet)
+	hmax, vmax int // largest text size any SetTextSize of the session asks for
+	W, H       int
+}
+
+func (g *sessGen) add(format string, a ...interface{}) { g.ops = append(g.ops, fmt.Sprintf(format, a...)) }
+
+// characters whose width differs most between the fonts and between proportional and fixed mode, then anything
+func (g *sessGen) char() []byte {
+	r := g.r
+	switch r.Intn(10) {
+	case 0, 1, 2, 3:
+		return []byte{".,:;i!l1|I' j"[r.Intn(13)]}
+	case 4:
+		return c20Char(r)
+	default:
+		return []byte{byte(r.Range(33, 126))}
+	}
+}
+
+// a short string; with `coincide` it starts with the character the object handled last (a one-entry memo of a glyph
+// metric that survives a font change is consulted exactly then)
+func (g *sessGen) str(coincide bool, maxLen int) []byte {
+	r := g.r
+	n := r.Range(1, maxLen)
+	b := []byte{}
+	if coincide && g.last >= 0 && g.last != 10 && g.last != 13 {
+		if g.last < 0x80 {
+			b = append(b, byte(g.last))
+		} else {
+			b = append(b, []byte(string(rune(g.last)))...) // Latin-1 rune: byte(rune) is the same character
+		}
+		n--
+	}
+	for i := 0; i < n; i++ {
+		b = append(b, g.char()...)
+	}
+	if rb := runeBytes(string(b)); len(rb) > 0 {
+		g.last = int(rb[len(rb)-1])
+	}
+	return b
+}
+
+func (g *sessGen) setFont() { g.add("F:%d:%s", g.r.Pick(0, 1, 2, 0, 1, 2, 0, 1, 2, 3, -1), b01(g.r.Bool())) }
+func (g *sessGen) setSize() {
+	r := g.r
+	h, v := r.Range(1, 4), r.Pick(0, 1, 2, 3, 4)
+	if r.Chance(6) {
+		h = r.Pick(0, -1)
+	}
+	g.hmax, g.vmax = maxInt(g.hmax, h), maxInt(g.vmax, maxInt(v, h))
+	g.add("Z:%d:%d", h, v)
+}
+
+// re-creation of the canvas on the same object; "@" = the session's canvas size (known when the session is complete)
+func (g *sessGen) recreate() {
+	r := g.r
+	switch r.Intn(5) {
+	case 0:
+		g.add("N:%d:%d", r.Range(0, 40), r.Range(0, 20))
+	case 1, 2:
+		g.add("N:@")
+	default:
+		g.add("B:@:%d", r.Intn(3)) // bytes shorter than / exactly / longer than the canvas needs
+	}
+}
+
+func (g *sessGen) setter() {
+	r := g.r
+	switch r.Intn(13) {
+	case 0, 1, 2, 3:
+		g.setFont()
+	case 4, 5, 6:
+		g.setSize()
+	case 7, 8:
+		g.add("P:%d", r.Pick(0, 0, 1, 2, 3))
+	case 9:
+		g.add("W:%s", b01(r.Bool()))
+	case 10:
+		g.add("C:%d:%d", r.Range(-3, 20), r.Range(-3, 12))
+	case 11:
+		g.add("K:%s", b01(r.Chance(85)))
+	case 12:
+		g.recreate()
+	}
+}
+
+func (g *sessGen) query(coincide bool) {
+	r := g.r
+	switch r.Intn(7) {
+	case 0, 1:
+		g.add("S:%s", hx(g.str(coincide, 4)))
+	case 2:
+		g.add("L")
+	case 3:
+		c := g.char()
+		g.last = int(runeBytes(string(c))[0])
+		g.add("G:%d", g.last)
+	case 4, 5:
+		if r.Chance(60) {
+			g.add("C:%d:%d", r.Range(0, 12), r.Range(0, 8))
+		}
+		g.add("R:%s", hx(g.str(coincide, 4)))
+	case 6:
+		c := g.char()
+		g.last = int(runeBytes(string(c))[0])
+		col := r.Chance(80)
+		g.add("D:%d:%d:%d:%s:%s:%d:%d", r.Range(-2, 20), r.Range(-2, 10), g.last, b01(col), b01(col != r.Chance(15)), r.Range(1, 3), r.Range(1, 3))
+	}
+}
+
+func genTextSession(r *Rng) {
+	g := &sessGen{r: r, last: -1, hmax: 1, vmax: 1}
+	kind := r.Intn(10)
+	switch {
+	case kind <= 3: // any calls in any order
+		for k, n := 0, r.Range(2, 9); k < n; k++ {
+			if r.Chance(70) {
+				g.setter()
+			} else {
+				g.query(r.Chance(30))
+			}
+		}
+	case kind <= 6: // two texts on one object with a font / mode / size change in between
+		for k, n := 0, r.Range(0, 3); k < n; k++ {
+			g.setter()
+		}
+		g.query(false)
+		if r.Chance(85) {
+			g.setFont()
+		}
+		for k, n := 0, r.Range(0, 2); k < n; k++ {
+			g.setter()
+		}
+	default: // text size chosen before the font
+		if r.Chance(70) {
+			g.setFont()
+		}
+		g.setSize()
+		g.setFont()
+		for k, n := 0, r.Range(0, 2); k < n; k++ {
+			if r.Chance(50) {
+				g.setter()
+			} else {
+				g.query(false)
+			}
+		}
+	}
+	// the text colour of a fresh object is "off": switch it on somewhere (it survives re-creation)
+	if r.Chance(90) {
+		at := r.Intn(len(g.ops) + 1)
+		g.ops = append(g.ops[:at], append([]string{"K:1"}, g.ops[at:]...)...)
+	}
+	// final case
+	fin := ""
+	cx, cy := r.Range(0, 9), r.Range(0, 5)
+	dx, dy := r.Range(-cx, 11), r.Range(-cy, 6)
+	nl := 1
+	if kind == 9 || r.Chance(12) {
+		// a direct DrawChar whose size arguments are not the object's text size
+		c := g.char()
+		col := r.Chance(85)
+		h, v := r.Range(1, 4), r.Range(1, 4)
+		if r.Chance(8) {
+			h, v = r.Range(-1, 1), r.Range(-1, 2)
+		}
+		g.hmax, g.vmax = maxInt(g.hmax, h), maxInt(g.vmax, v)
+		fin = fmt.Sprintf("D:%d:%d:%d:%s:%s:%d:%d", cx, cy, int(runeBytes(string(c))[0]), b01(col), b01(col != r.Chance(15)), h, v)
+	} else {
+		bs := g.str(r.Chance(65), 5)
+		nl = lineCount(bs)
+		fin = fmt.Sprintf("R:%d:%d:%d:%s", r.Pick(0, 0, 1), cx, cy, hx(bs))
+	}
+	// a canvas large enough not to clip whatever size the history leaves
+	g.W = ((cx + maxInt(dx, 0) + 6*(9*g.hmax+3) + 9*g.hmax + 8 + 7) / 8) * 8
+	g.H = cy + maxInt(dy, 0) + 8*g.vmax*nl + 10
+	if r.Chance(8) { // now and then a canvas that clips (box clauses and the model comparison still apply)
+		g.W, g.H = r.Range(0, 60), r.Range(0, 30)
+		for _, op := range g.ops {
+			if strings.HasPrefix(op, "B:@") { // CreateFromBytes installs the caller's padding bits too: no padding then
+				g.W = g.W / 8 * 8
+			}
+		}
+	}
+	args := []interface{}{g.W, g.H, dx, dy, fin}
+	for _, op := range g.ops {
+		switch {
+		case op == "N:@":
+			op = fmt.Sprintf("N:%d:%d", g.W, g.H)
+		case strings.HasPrefix(op, "B:@:"):
+			need := g.W / 8 * g.H
+			l := need
+			switch op[4] {
+			case '0':
+				l = r.Range(0, need)
+			case '2':
+				l = need + r.Range(1, 30)
+			}
+			op = fmt.Sprintf("B:%d:%d:%s", g.W, g.H, hx(pixBits(r, l)))
+		}
+		args = append(args, op)
+	}
+	emit("text.sess", args...)
+}
+
 func maxInt(a, b int) int {
 	if a > b {
 		return a
@@ -229,5 +590,9 @@ func genC20(r *Rng, n int, tier string) {
 			sp = 0
 		}
 		emitTextCase(r, font, r.Bool(), sp, h, v, c20String(r, l))
+	}
+	// one image object used more than once: setters in every order, metric queries, two texts, re-creation, DrawChar
+	for i := 0; i < n/3; i++ {
+		genTextSession(r)
 	}
 }
